@@ -688,7 +688,7 @@ fn stress_case(cx: &mut Cx) {
                     if serde_json::from_slice::<Value>(&again).is_err() || serde_json::from_slice::<Value>(raw.as_ref().expect("ok")).is_err() {
                         cx.violation(
                             "concurrent-writers-left-unloadable-file",
-                            format!("load_cache_data failed ({e:?}) while {writers} processes were flushing; file content was not complete JSON ({} bytes)", raw.as_ref().map(|r| r.len()).unwrap_or(0)),
+                            format!("load_cache_data failed ({e:?}) while {writers} {} were flushing; file content was not complete JSON ({} bytes)", if in_process { "threads of one process" } else { "processes" }, raw.as_ref().map(|r| r.len()).unwrap_or(0)),
                             json!({"content_head": String::from_utf8_lossy(raw.as_ref().expect("ok")).chars().take(200).collect::<String>()}),
                         );
                         break;
